@@ -144,6 +144,14 @@ class Net(torch.nn.Module):
             layers = B('pre') + [torch.nn.Conv1d(4, 3, 3, padding=1), torch.nn.BatchNorm1d(3), torch.nn.ReLU()] + B('mid') + \
                 [torch.nn.MaxPool1d(2), torch.nn.Dropout(0.5), SumLen(), torch.nn.Linear(3, 4),
                  torch.nn.Tanh(), torch.nn.Linear(4, 2)] + B('post')
+        elif arch == 'shared':
+            # one activation object registered under two parents (and aliased as an attribute): model.apply()
+            # visits it more than once
+            act = torch.nn.ReLU()
+            block1 = torch.nn.Sequential(torch.nn.Conv1d(4, 3, 3, padding=1), act)
+            block2 = torch.nn.Sequential(torch.nn.Conv1d(3, 3, 3, padding=1), act)
+            self.act = act
+            layers = B('pre') + [block1] + B('mid') + [block2, SumLen(), torch.nn.Linear(3, 2)] + B('post')
         else:
             raise ValueError(arch)
         self.body = torch.nn.Sequential(*layers)
@@ -747,7 +755,7 @@ def run(rep):
     # ---- A. deep_lift_shap, direct: every injection point
     cfgs = []
     if thorough:
-        for arch in ('relu', 'bnpool', 'arg', 'userhook'):
+        for arch in ('relu', 'bnpool', 'arg', 'userhook', 'shared'):
             for bomb in ('pre', 'mid', 'post'):
                 for bs in (1, 2, 4, 5, 32):
                     for rs in (0, None):
@@ -759,7 +767,7 @@ def run(rep):
     else:
         for bs, rs in ((1, 0), (4, 0), (4, None), (32, 0)):
             cfgs.append((_spec('relu', 'mid'), {'bs': bs, 'rs': rs}, data))
-        for arch, bomb in (('relu', 'pre'), ('relu', 'post'), ('bnpool', 'mid'), ('arg', 'mid'), ('userhook', 'mid')):
+        for arch, bomb in (('shared', 'mid'), ('relu', 'pre'), ('relu', 'post'), ('bnpool', 'mid'), ('arg', 'mid'), ('userhook', 'mid')):
             cfgs.append((_spec(arch, bomb), {'bs': 4, 'args': arch == 'arg'}, data))
         cfgs.append((_spec('relu'), {'bs': 4, 'ref': 'tensor', 'raw': True}, data))
     for model, opts, d in cfgs:
